@@ -1,6 +1,7 @@
 """C04 — each file format decodes what it encodes, types intact, and all formats agree."""
 import json
 import math
+import os
 from xml.etree import ElementTree as ET
 
 from core import Result, guard
@@ -369,8 +370,109 @@ def registry_check(ctx, res):
             res.violate(None, "built-in format not registered", {"name": name, "exc": type(exc).__name__})
 
 
+LONG_TEXTS = [
+    "Usage:\n  " + "backup --target /srv/data " * 5 + "--verbose",
+    " " + "leading blank then many words " * 6 + "end",
+    "first line\n    " + "indented continuation with single spaces " * 4 + "x\nlast",
+    "word " * 40 + "end", "x" * 200, ("alpha beta " * 12 + "\n") * 3 + "tail", "para one " * 15 + "\n\n" + "para two " * 15,
+    "- item " * 30, "key: value " * 20, "# not a comment " * 10, "tab\tseparated\t" * 15 + "z", "trailing blanks " * 8 + "  ", "ünïcödé wörds " * 10 + "ß",
+    "line\n" * 30 + "x", "> quoted " * 20, "| piped " * 20, "'single' \"double\" " * 8 + "q", "a  double  spaced  " * 8 + "b",
+    "\n" + "starts with a newline and goes on for a good while " * 3, "ends with a newline " * 6 + "\n", "{braces} [brackets] " * 6 + "!",
+]
+
+FRESH_PROCESS = r"""
+import json, os, sys
+sys.path.insert(0, sys.argv[1])
+from cincoconfig.core import ConfigFormat
+class LiteralFormat(ConfigFormat):
+    def __init__(self, **kw):
+        pass
+    def dumps(self, config, tree):
+        return repr(tree).encode()
+    def loads(self, config, content):
+        import ast
+        return ast.literal_eval(content.decode())
+mode = sys.argv[2]
+if mode in ("register-first", "register-two-first"):
+    ConfigFormat.register("literal", LiteralFormat)
+if mode == "register-two-first":
+    ConfigFormat.register("literal2", LiteralFormat)
+if mode == "schema-first":
+    import cincoconfig as cc
+    s = cc.Schema(); s.x = cc.IntField(default=1); c = s()
+    ConfigFormat.register("literal", LiteralFormat)
+if mode == "get-first":
+    ConfigFormat.get("json")
+    ConfigFormat.register("literal", LiteralFormat)
+tree = {"name": "svc", "port": 0, "debug": False, "ratio": 0.5, "tags": [], "sub": {"x": None, "y": ["", 1, True]}}
+out = {}
+for name, opts in (("literal", {}), ("json", {}), ("json", {"pretty": False}), ("yaml", {"root_key": "CONFIG"}), ("xml", {"root_tag": "settings"}), ("bson", {}), ("pickle", {})):
+    label = name + json.dumps(opts, sort_keys=True)
+    try:
+        back = ConfigFormat.get(name, **opts).loads(None, ConfigFormat.get(name, **opts).dumps(None, tree))
+        out[label] = "same" if repr(back) == repr(tree) or (back == tree and json.dumps(back, sort_keys=True) == json.dumps(tree, sort_keys=True)) else "differs: %r" % (back,)
+    except Exception as e:
+        out[label] = "raised %s: %s" % (type(e).__name__, str(e)[:60])
+if mode != "none":
+    import cincoconfig as cc
+    s = cc.Schema(); s.x = cc.IntField(default=1); s.sub.y = cc.StringField(default="d")
+    c = s(); c.x = 5; c.sub.y = "held"
+    for fmt in ("literal", "json", "yaml", "xml", "bson", "pickle"):
+        try:
+            d = s(); d.loads(c.dumps(format=fmt), format=fmt)
+            out["config:" + fmt] = "same" if (d.x, d.sub.y) == (5, "held") else "differs"
+        except Exception as e:
+            out["config:" + fmt] = "raised %s: %s" % (type(e).__name__, str(e)[:60])
+print(json.dumps(out))
+"""
+
+
+def long_strings_and_fresh_process_stream(ctx, res):
+    """(a) strings of hundreds of characters — command lines with an indented continuation, a leading blank, paragraphs, blank-separated
+    words far past any line width, text that looks like YAML syntax — at the top level, in lists and in nested maps, in all five
+    formats with their options: a writer that wraps or folds long text has to read it back unchanged; (b) a HISTORY the running
+    process cannot replay: in a new interpreter an application registers its own format BEFORE the library has loaded or saved
+    anything (module level, at import time) — or after building a configuration, or after the first lookup — and all five built-in
+    formats are still there, decode what they encode and agree, for plain trees and through Config.dumps / loads"""
+    import subprocess
+    import sys
+    import tempfile
+    from cincoconfig.core import ConfigFormat
+    for i, text in enumerate(LONG_TEXTS):
+        t = {"description": text, "jobs": [{"command": text, "notes": [text, "short"]}], "deep": {"er": {"text": text}}}
+        for fmt in ["json", "yaml", "bson", "xml", "pickle"]:
+            if not in_domain(fmt, t):
+                continue
+            for opts in OPTS[fmt]:
+                case = {"stream": "long-strings", "fmt": fmt, "opts": opts, "text": i, "length": len(text)}
+                res.case(json.dumps(["long", i, fmt, opts]), kind="long-strings:" + fmt)
+                try:
+                    back = ConfigFormat.get(fmt, **opts).loads(None, ConfigFormat.get(fmt, **opts).dumps(None, t))
+                except Exception as exc:  # noqa
+                    res.violate("C04:long-string", "%s cannot round-trip a long string: %s" % (fmt, type(exc).__name__), dict(case, error=str(exc)[:120]))
+                    continue
+                if canon_sorted(back) != canon_sorted(t):
+                    res.violate("C04:long-string", "%s decodes a long string to a different one" % fmt, dict(case, sent=text[:120], got=str(back.get("description"))[:160]))
+    home = tempfile.mkdtemp(prefix="c04-home-")
+    for mode in ("none", "register-first", "register-two-first", "schema-first", "get-first"):
+        case = {"stream": "fresh-process-registry", "history": mode}
+        res.case(json.dumps(["fresh", mode]), kind="fresh-process-registry")
+        try:
+            r = subprocess.run([sys.executable, "-B", "-c", FRESH_PROCESS, ctx.repo, mode], capture_output=True, text=True, timeout=120, env=dict(os.environ, HOME=home))
+        except subprocess.TimeoutExpired:
+            res.hist["fresh-process-timeout"] += 1
+            continue
+        if r.returncode != 0:
+            res.violate("C04:registry-history", "a new interpreter registering its own format failed: %s" % r.stderr.strip().splitlines()[-1:], case)
+            continue
+        out = json.loads(r.stdout.strip().splitlines()[-1])
+        bad = {k: v for k, v in out.items() if v != "same" and not (mode == "none" and k.startswith("literal"))}
+        if bad:
+            res.violate("C04:registry-history", "after an application registered its own format (history: %s) not every format decodes what it encodes" % mode, dict(case, failed=bad))
+
 def run(ctx):
     res = Result()
+    guard(res, "C04", long_strings_and_fresh_process_stream, ctx, res)
     guard(res, "C04", stream_elem, ctx, res, ctx.n(600, 20000))
     guard(res, "C04", stream_doc, ctx, res, ctx.n(250, 8000))
     guard(res, "C04", registry_check, ctx, res)
